@@ -1,4 +1,55 @@
-From HP Require Import Base.Prelude Base.Path KV.Types Conc.Conc.
-Example C15_smoke : length (explore 100 [(dot, true)] [g_init [CMkdir (S "a")]; g_init [CMkdir (S "a")]]) <> 0%nat.
-Proof. vm_compute. discriminate. Qed.
-Print Assumptions C15_smoke.
+(* C15 -- Concurrent use of the in-memory FS is race-free and atomic per operation.
+   Model: Conc/Conc.v -- Mkdir, Remove and Stat of keyvalue.FS as resumable programs whose atomic
+   steps are store transactions (and the lazy directory listing); [explore] enumerates EVERY
+   interleaving, [explore_seq] every sequential order of whole operations.  The outcome sets of the
+   model are compared with those of the real code (all schedules forced on it) on every run.
+   The theorems about families of programs are finite: the family is part of the statement.
+   Data races in the Go memory-model sense cannot be expressed by this model (exercised: free-running
+   stress; the race detector in the thorough tier).
+   (* OPEN: C15_unrelated_commute_all_programs -- the commutation for arbitrary programs and stores *) *)
+From HP Require Import Base.Prelude Base.Path KV.Types Conc.Conc Conc.ConcProofs Txn.Txn Txn.TxnProofs.
+Open Scope nat_scope.
+
+(* The property as stated (every interleaving equals some sequential order) is FALSE of the code:
+   two concurrent Mkdir of one name can both report success. *)
+Theorem C15_linearizable_refuted :
+  subset_outcomes (explore 100 s0 (map g_init two_mkdirs)) (explore_seq 100 s0 (map g_init two_mkdirs)) = false
+  /\ mem_outcome ([[COk]; [COk]], cset s0 (S "d/x") true) (explore 100 s0 (map g_init two_mkdirs)) = true.
+Proof. exact (conj two_mkdirs_not_sequential both_mkdirs_succeed). Qed.
+Print Assumptions C15_linearizable_refuted.
+
+(* ... and Mkdir below a directory that is removed concurrently can leave an orphan. *)
+Theorem C15_orphan_reachable_refuted :
+  existsb (fun o => match cget (snd o) (S "d/x"), cget (snd o) (S "d") with Some _, None => true | _, _ => false end)
+          (explore 100 s0 (map g_init mkdir_vs_remove)) = true.
+Proof. exact orphan_reachable. Qed.
+Print Assumptions C15_orphan_reachable_refuted.
+
+(* Operations on unrelated paths do not influence each other: for every program of one or two
+   operations from [ops_left] (below d/) run against every operation from [ops_right] (below e/), every
+   interleaving ends in one and the same outcome, and it is a sequential one. (42 x 6 programs.) *)
+Theorem C15_unrelated_commute_partial : forall pl pr,
+  In pl (progs_upto2 ops_left) -> In pr (progs1 ops_right) -> commute_ok pl pr = true.
+Proof. exact unrelated_commute. Qed.
+Print Assumptions C15_unrelated_commute_partial.
+
+(* Single-transaction operations are atomic: any one or two Stats of existing paths against a
+   concurrent Mkdir, Remove or Stat always produce a sequential outcome. *)
+Theorem C15_single_transaction_ops_linearizable_partial :
+  forallb (fun pl => forallb (fun pr =>
+     subset_outcomes (explore 200 s0 [g_init pl; g_init pr]) (explore_seq 200 s0 [g_init pl; g_init pr]))
+     (progs1 (CMkdir (S "x") :: CRemove (S "f") :: stat_ops))) (progs_upto2 stat_ops) = true.
+Proof. exact stats_linearizable_all. Qed.
+Print Assumptions C15_single_transaction_ops_linearizable_partial.
+
+(* Store transactions are mutually exclusive and the store is never left locked (from C18's model of
+   the in-memory store): no deadlock on the store mutex is possible after any call sequence. *)
+Theorem C15_transactions_exclusive_and_released : forall s0 cs,
+  let t := fst (trun MemTxn (t_begin s0) cs) in
+  (t_released t = false -> t_locked t = true) /\ (existsb ends cs = true -> usable MemTxn t = true).
+Proof.
+  intros st cs t. split.
+  - destruct (trun_rinv (t_begin st) cs (rinv_begin st)) as (_ & L & _). exact L.
+  - intros H. apply mem_store_released. exact H.
+Qed.
+Print Assumptions C15_transactions_exclusive_and_released.
